@@ -253,6 +253,29 @@ func (g *wsG) localCall() {
 	}
 }
 
+// deferredWindow: write-type calls while the transport holds asynchronous writes back (a Close or a data frame is in
+// flight when the next call is made), then the transport performs them.
+func (g *wsG) deferredWindow() {
+	fmt.Fprintf(g.w, "! defer\n")
+	for q := 1 + g.r.intn(5); q > 0; q-- {
+		switch g.r.intn(7) {
+		case 0, 1:
+			g.emit("write async %d %s", 1+g.r.intn(2), wsHx(g.r.bytes(g.plen())))
+		case 2:
+			g.emit("writeframe async %d %d %s", g.r.intn(2), g.r.pick(0, 1, 2, 9), wsHx(g.r.bytes(g.clen())))
+		case 3:
+			g.emit("flush async")
+		case 4:
+			g.emit("close async %d %s", wsValidCodes[g.r.intn(len(wsValidCodes))], wsHx(wsGoodReasons[g.r.intn(len(wsGoodReasons))]))
+		case 5:
+			g.emit("write sync %d %s", 1+g.r.intn(2), wsHx(g.r.bytes(g.plen())))
+		default:
+			g.emit("close sync 1000 -")
+		}
+	}
+	g.emit("pump")
+}
+
 func (g *wsG) peerEvent() {
 	switch x := g.r.intn(66); {
 	case x >= 60:
@@ -291,6 +314,10 @@ func wsGen(r *rng, maxops int, w *bufio.Writer) {
 	if r.intn(2) == 0 {
 		// random session: peer events and local calls mixed
 		for g.n < n {
+			if r.intn(14) == 0 {
+				g.deferredWindow()
+				continue
+			}
 			if r.intn(9) < 4 {
 				g.peerEvent()
 				if r.intn(3) != 0 {
@@ -398,6 +425,10 @@ func wsEnum(args []string, w *bufio.Writer) {
 			"peer 1 0 1 0 6869", "peer 0 0 1 0 68", "peer 1 0 0 0 69", "peer 1 0 9 0 aa", "peer 1 1 9 0 -", "peer 1 0 1 1 00",
 			"peer 1 0 11 0 -", "peer 1 0 2 0 0102030405060708090a0b0c0d0e0f1011", "peer 1 0 8 0 03e8",
 			"nextmsg sync 8", "nextmsg async 8", "nextmsg sync 1", "nextframe async", "write async 1 61", "flush async",
+		},
+		{ // 3: calls made while an asynchronous write (a Close, a data frame) is still inside the transport
+			"defer", "pump", "write async 1 61", "write sync 2 62", "close async 1000 -", "close sync 1001 -", "writeframe async 1 9 aa",
+			"flush async", "peer 1 0 8 0 03e9", "peer 1 0 9 0 aa", "nextframe async", "nextframe sync",
 		},
 	}
 	alphabet := alphabets[which%len(alphabets)]
